@@ -39,6 +39,15 @@ Theorem C01_every_empty : forall f S ds body x e, In (x, e) ds -> eval_spec f S 
   eval_spec (Datatypes.S f) S (EEvery ds body) = VBool true.
 Proof. exact spec_every_empty. Qed.
 
+(* some / every are the three-valued or / and of the satisfies results (non-booleans count as null) *)
+Theorem C01_some_is_or_fold : forall rs, existsb poison rs = false -> quant_some rs = fold_left or3 rs (VBool false).
+Proof. exact some_is_or_fold. Qed.
+Theorem C01_every_is_and_fold : forall rs, existsb poison rs = false -> quant_every rs = fold_left and3 rs (VBool true).
+Proof. exact every_is_and_fold. Qed.
+Theorem C01_quantifiers_orig_refuted :
+  quant_some_orig [VNull] <> fold_left or3 [VNull] (VBool false) /\ quant_every_orig [VNull] <> fold_left and3 [VNull] (VBool true).
+Proof. exact quantifiers_orig_refuted. Qed.
+
 Example C01_nonvacuous :
   run_impl 20 [[(101%N, VNum 2)]] (EFor [(102%N, DList (EList [ENum 1; ENum 2])); (103%N, DRange (ENum 1) (ENum 2))]
          (EBin Add (EBin Mul (EName 102%N) (EName 101%N)) (EFilter (ECtx [(104%N, EName 103%N)]) (EBin Eq (EName 104%N) (ENum 1)))))
@@ -57,4 +66,7 @@ Print Assumptions C01_product_empty.
 Print Assumptions C01_for_empty.
 Print Assumptions C01_some_empty.
 Print Assumptions C01_every_empty.
+Print Assumptions C01_some_is_or_fold.
+Print Assumptions C01_every_is_and_fold.
+Print Assumptions C01_quantifiers_orig_refuted.
 Print Assumptions C01_nonvacuous.
